@@ -73,6 +73,26 @@ struct IsTriviallySerializable<yardl::FixedNDArray<T, Dims...>,
     : std::true_type {
 };
 
+/**
+ * Serializers that generated code emits for a previous version of a named type
+ * read and write that version's encoding under the current C++ type, so the
+ * elements they handle must never be copied as raw bytes, whatever
+ * IsTriviallySerializable says about the C++ type. Generated code marks them by
+ * specializing this to std::true_type.
+ */
+template <auto Serializer>
+struct IsCompatibilitySerializer
+    : std::false_type {
+};
+
+/**
+ * Whether a sequence of T that is read or written by the given element
+ * serializer can be transferred with a single memcpy.
+ */
+template <typename T, auto Serializer>
+inline constexpr bool CanCopyElementBytes =
+    IsTriviallySerializable<T>::value && !IsCompatibilitySerializer<Serializer>::value;
+
 template <typename T>
 inline void WriteTriviallySerializable(CodedOutputStream& stream, T const& value) {
   static_assert(IsTriviallySerializable<T>::value, "T must be trivially serializable");
@@ -224,7 +244,7 @@ template <typename T, Writer<T> WriteElement>
 inline void WriteVector(CodedOutputStream& stream, std::vector<T> const& value) {
   WriteInteger(stream, value.size());
 
-  if constexpr (IsTriviallySerializable<T>::value) {
+  if constexpr (CanCopyElementBytes<T, WriteElement>) {
     stream.WriteBytes(value.data(), value.size() * sizeof(T));
     return;
   }
@@ -240,7 +260,7 @@ inline void ReadVector(CodedInputStream& stream, std::vector<T>& value) {
   ReadInteger(stream, size);
   value.resize(size);
 
-  if constexpr (IsTriviallySerializable<T>::value) {
+  if constexpr (CanCopyElementBytes<T, ReadElement>) {
     stream.ReadBytes(value.data(), value.size() * sizeof(T));
     return;
   }
@@ -252,7 +272,7 @@ inline void ReadVector(CodedInputStream& stream, std::vector<T>& value) {
 
 template <typename T, Writer<T> WriteElement, size_t N>
 inline void WriteArray(CodedOutputStream& stream, std::array<T, N> const& value) {
-  if constexpr (IsTriviallySerializable<T>::value) {
+  if constexpr (CanCopyElementBytes<T, WriteElement>) {
     stream.WriteBytes(value.data(), value.size() * sizeof(T));
     return;
   }
@@ -264,7 +284,7 @@ inline void WriteArray(CodedOutputStream& stream, std::array<T, N> const& value)
 
 template <typename T, Reader<T> ReadElement, size_t N>
 inline void ReadArray(CodedInputStream& stream, std::array<T, N>& value) {
-  if constexpr (IsTriviallySerializable<T>::value) {
+  if constexpr (CanCopyElementBytes<T, ReadElement>) {
     stream.ReadBytes(value.data(), value.size() * sizeof(T));
     return;
   }
@@ -282,7 +302,7 @@ inline void WriteDynamicNDArray(CodedOutputStream& stream, yardl::DynamicNDArray
     WriteInteger(stream, dim);
   }
 
-  if constexpr (IsTriviallySerializable<T>::value) {
+  if constexpr (CanCopyElementBytes<T, WriteElement>) {
     stream.WriteBytes(yardl::dataptr(value), yardl::size(value) * sizeof(T));
     return;
   }
@@ -298,7 +318,7 @@ inline void ReadDynamicNDArray(CodedInputStream& stream, yardl::DynamicNDArray<T
   ReadVector<size_t, &ReadInteger>(stream, shape);
   yardl::resize(value, shape);
 
-  if constexpr (IsTriviallySerializable<T>::value) {
+  if constexpr (CanCopyElementBytes<T, ReadElement>) {
     stream.ReadBytes(yardl::dataptr(value), yardl::size(value) * sizeof(T));
     return;
   }
@@ -314,7 +334,7 @@ inline void WriteNDArray(CodedOutputStream& stream, yardl::NDArray<T, N> const& 
     WriteInteger(stream, dim);
   }
 
-  if constexpr (IsTriviallySerializable<T>::value) {
+  if constexpr (CanCopyElementBytes<T, WriteElement>) {
     stream.WriteBytes(yardl::dataptr(value), yardl::size(value) * sizeof(T));
     return;
   }
@@ -330,7 +350,7 @@ inline void ReadNDArray(CodedInputStream& stream, yardl::NDArray<T, N>& value) {
   ReadArray<size_t, &ReadInteger, N>(stream, shape);
   yardl::resize(value, shape);
 
-  if constexpr (IsTriviallySerializable<T>::value) {
+  if constexpr (CanCopyElementBytes<T, ReadElement>) {
     stream.ReadBytes(yardl::dataptr(value), yardl::size(value) * sizeof(T));
     return;
   }
@@ -343,7 +363,7 @@ inline void ReadNDArray(CodedInputStream& stream, yardl::NDArray<T, N>& value) {
 template <typename T, Writer<T> WriteElement, size_t... Dims>
 inline void WriteFixedNDArray(CodedOutputStream& stream,
                               yardl::FixedNDArray<T, Dims...> const& value) {
-  if constexpr (IsTriviallySerializable<T>::value) {
+  if constexpr (CanCopyElementBytes<T, WriteElement>) {
     stream.WriteBytes(yardl::dataptr(value), yardl::size(value) * sizeof(T));
     return;
   }
@@ -355,7 +375,7 @@ inline void WriteFixedNDArray(CodedOutputStream& stream,
 
 template <typename T, Reader<T> ReadElement, size_t... Dims>
 inline void ReadFixedNDArray(CodedInputStream& stream, yardl::FixedNDArray<T, Dims...>& value) {
-  if constexpr (IsTriviallySerializable<T>::value) {
+  if constexpr (CanCopyElementBytes<T, ReadElement>) {
     stream.ReadBytes(yardl::dataptr(value), yardl::size(value) * sizeof(T));
     return;
   }
@@ -462,7 +482,7 @@ inline void ReadBlocksIntoVector(CodedInputStream& stream, size_t& current_block
       destination.resize(offset + read_count);
     }
 
-    if constexpr (IsTriviallySerializable<T>::value) {
+    if constexpr (CanCopyElementBytes<T, ReadElement>) {
       stream.ReadBytes(destination.data() + offset, read_count * sizeof(T));
     } else {
       for (size_t i = 0; i < read_count; i++) {
